@@ -305,6 +305,14 @@ func parseContractFile(path, pkgPath string) (*ContractFile, error) {
 			lastSp = nil
 			pending = append(pending, c)
 			cur.Clauses = append(cur.Clauses, c)
+		case "unreachable":
+			// unreachable <source text>: the block starting with this statement is
+			// dead under the contract (defensive code); no reachability cover for it
+			if cur == nil {
+				return nil, fmt.Errorf("%s:%d: clause outside func", path, ln+1)
+			}
+			lastCl = nil
+			cur.Clauses = append(cur.Clauses, &Clause{Kind: "unreachable", Text: strings.TrimSpace(rest), Line: ln + 1, File: path})
 		case "requires", "ensures", "panics_if", "assume", "decreases", "induct", "props", "commit":
 			if word == "props" && curLem != nil {
 				curLem.Props = strings.Split(strings.TrimSpace(rest), ",")
